@@ -119,7 +119,7 @@ Definition w_f : name := [102]%N.
 Definition w_schema : schema :=
   {| types := [(w_Int, NScalar KInt); (w_Float, NScalar KFloat);
                (w_Q, NObject [(w_f, StNonNull (StNamed w_Int)); (w_Float, StNamed w_Float)] [])];
-     query := w_Q; mutation := None; subscription := None; s_inputs := []; s_argdefs := [] |}.
+     query := w_Q; mutation := None; subscription := None; s_inputs := []; s_dt := []; s_argdefs := [] |}.
 (** {f}  with  f: Int!  whose resolver returns a string *)
 Definition w_doc1 : document :=
   {| op_kind := OpQuery; op_pos := {| line := 1; col := 1 |};
@@ -161,7 +161,7 @@ Definition w_schema_l : schema :=
   {| types := [(w_Int, NScalar KInt);
                (w_Q, NObject [(w_l, StList (StNamed w_O))] []);
                (w_O, NObject [(w_a, StNamed w_Int)] [])];
-     query := w_Q; mutation := None; subscription := None; s_inputs := []; s_argdefs := [] |}.
+     query := w_Q; mutation := None; subscription := None; s_inputs := []; s_dt := []; s_argdefs := [] |}.
 Definition w_doc_l : document :=
   {| op_kind := OpQuery; op_pos := {| line := 1; col := 1 |};
      op_sels := [SField None w_l {| line := 1; col := 3 |} []
@@ -203,7 +203,7 @@ Definition w_schema_k : schema :=
   {| types := [(w_Int, NScalar KInt);
                (w_Q, NObject [(w_o, StNamed w_O)] []);
                (w_O, NObject [(w_o, StNamed w_O); (w_s, StNamed w_Int); (w_sn, StNamed w_Int)] [])];
-     query := w_Q; mutation := None; subscription := None; s_inputs := []; s_argdefs := [] |}.
+     query := w_Q; mutation := None; subscription := None; s_inputs := []; s_dt := []; s_argdefs := [] |}.
 Definition w_at (l c : N) : pos := {| line := l; col := c |}.
 Definition w_doc_k : document :=
   {| op_kind := OpQuery; op_pos := w_at 1 1;
@@ -231,3 +231,19 @@ Proof.
          [SField None n_typename (w_at 2 20) [] []; SField None w_sn (w_at 1 34) [] []].
   repeat split; try (vm_compute; reflexivity); try (vm_compute; discriminate); discriminate.
 Qed.
+
+(** ** the level bound of [doc_ok]: [doc_depth D + 1] is not enough (nesting continues through
+    fragment spreads), [default_fuel D] is, here:  { o { ...F } }  F on O { o { ...G } }  G on O { o { s } } *)
+Definition w_G : name := [71]%N.
+Definition w_doc_lv : document :=
+  {| op_kind := OpQuery; op_pos := w_at 1 1;
+     op_sels := [ SField None w_o (w_at 1 2) [] [SSpread w_F (w_at 1 6) []] ];
+     frags := [ {| fr_name := w_F; fr_cond := w_O; fr_sels := [SField None w_o (w_at 2 17) [] [SSpread w_G (w_at 2 21) []]] |};
+                {| fr_name := w_G; fr_cond := w_O; fr_sels := [SField None w_o (w_at 3 17) [] [SField None w_s (w_at 3 21) [] []]] |} ];
+     d_args := []; d_vars := [] |}.
+
+Theorem level_bound_depth_plus_one_refuted :
+  exists S D E,
+    doc_ok S D E (default_fuel D) (doc_depth D + 1) = false /\
+    doc_ok S D E (default_fuel D) (default_fuel D) = true.
+Proof. exists w_schema_k, w_doc_lv, []. vm_compute. split; reflexivity. Qed.
